@@ -421,6 +421,7 @@ def run(ck):
     ck.configs.add("K1")
     from .. import linear as _lin
     ck.floor("SIB/same-terms-same-threshold", _lin.same_threshold(ck, P, [f for f in sorted(P.fns.values(), key=lambda f: f.path) if f.path.startswith(Z + "inflate::")]), 1)
+    ck.floor("PAIR/second-level-bits", _lin.second_level_bits(ck, P, [f for f in sorted(P.fns.values(), key=lambda f: f.path) if f.path.startswith(Z + "inflate::")]), 3)
     guard_calls(ck, P)
     loop_backedge_guard(ck, P)
     who_callers(ck, P)
